@@ -74,6 +74,8 @@ void drive_algorithm(bool thorough)
       // algorithm::map keeps all elements (with the pass-through continuation)
       run1<C>("algorithm::map", true, shp("vector->vector:", n), mk_vec,
               [](auto &&a) { return fcppt::algorithm::map<vec>(C05_FWD(a), pass); });
+      run1<C>("algorithm::map", true, shp("vector->vector/by-value:", n), mk_vec,
+              [](auto &&a) { return fcppt::algorithm::map<vec>(C05_FWD(a), pass_by_value); });
       run1<C>("algorithm::map", true, shp("list->deque:", n), mk_lst,
               [](auto &&a) { return fcppt::algorithm::map<deq>(C05_FWD(a), pass); });
       run1<C>("algorithm::map", true, shp("deque->list:", n), mk_deq,
@@ -210,15 +212,25 @@ void drive_algorithm(bool thorough)
               [](auto &&a, auto &&b) { return fcppt::container::join(C05_FWD(a), C05_FWD(b)); });
         });
       });
-      for_cats<'r', 'c'>([&](auto c1)
+      // three and four containers: EVERY combination of value categories of every position
+      if (m == n || thorough)
       {
-        for_cats<'r', 'l'>([&](auto c2)
+        for_cats3([&](auto c1, auto c2, auto c3)
         {
-          run3<decltype(c1)::value, decltype(c2)::value, decltype(c1)::value>("container::join", true, s2 + "+2", mk_vec, mk2,
+          run3<decltype(c1)::value, decltype(c2)::value, decltype(c3)::value>("container::join", true, s2 + "+2", mk_vec, mk2,
               [] { return make_seq<vec>(2); },
               [](auto &&a, auto &&b, auto &&cc) { return fcppt::container::join(C05_FWD(a), C05_FWD(b), C05_FWD(cc)); });
         });
-      });
+      }
+      if (m == n && (n == 3 || (thorough && n >= 1)))
+      {
+        for_cats4([&](auto c1, auto c2, auto c3, auto c4)
+        {
+          run4<decltype(c1)::value, decltype(c2)::value, decltype(c3)::value, decltype(c4)::value>("container::join", true,
+              s2 + "+2+1", mk_vec, mk2, [] { return make_seq<vec>(2); }, [] { return make_seq<vec>(1); },
+              [](auto &&a, auto &&b, auto &&cc, auto &&d) { return fcppt::container::join(C05_FWD(a), C05_FWD(b), C05_FWD(cc), C05_FWD(d)); });
+        });
+      }
     }
     // get_or_insert: map<int, T> (inout), the created element comes from the continuation
     for (int key : {1, 7})
@@ -337,6 +349,22 @@ void selftest()
     r.push_back(tmp);
     r.push_back(std::move(tmp));
     return r;
+  });
+  // hands the element of an rvalue argument to a by-value continuation (which consumes it) and then
+  // returns the argument itself: the result holds the moved-from object and the value is lost
+  run1<'r'>("selftest::consumed-then-returned", true, "", mk, [](auto &&a)
+  {
+    for (auto &x : a) (void)pass_by_value(std::move(x));
+    return vec(std::move(a));
+  });
+  // moves the same object twice
+  run1<'r'>("selftest::moved-twice", false, "", mk, [](auto &&a)
+  {
+    T first(std::move(a.front()));
+    T second(std::move(a.front()));
+    (void)first;
+    (void)second;
+    return nothing{};
   });
   // an acceptable behaviour, for contrast
   run1<'r'>("selftest::ok", true, "", mk, [](auto &&a)
